@@ -18,12 +18,14 @@ def plan(tier, seed):
                        dict(n=1, m=2, labels='ints', schemes='two')],
             'absent_enum': [dict(n=3, m=2, labels='ints', schemes='six'), dict(n=2, m=3, labels='ints', schemes='four'),
                             dict(n=3, m=2, labels=alt, schemes='two'),
+                            dict(n=3, m=2, labels='ints', schemes='one', premutate=True, reuse=False, flags='one'),
                             dict(n=3, m=3, labels='ints', schemes='cycle', per=60, nontrivial_only=True),
                             dict(space='ext43', labels='ints', schemes='ext', per=300, flags='one')],
             'stub': [dict(n=3, m=2, labels='ints', schemes='six'), dict(n=3, m=2, labels='ints', schemes='rest11', reuse=False),
                      dict(n=4, m=2, labels='ints', schemes='one_b', per=60, flags='one', configs='plain'),
                      dict(n=3, m=2, labels=alt, schemes='two'),
                      dict(n=1, m=2, labels='ints', schemes='two'),
+                     dict(n=3, m=2, labels='ints', schemes='one', premutate=True, reuse=False, flags='one'),
                      dict(n=3, m=3, labels='ints', schemes='cycle', per=60, nontrivial_only=True),
                      dict(space='ext43', labels='ints_rev', schemes='ext', per=300)],
         }
